@@ -1695,7 +1695,7 @@ def build(ctx):
     # numbers
     A(r"^<u\w+ as num::Integer>::div_mod_floor$", m_div_mod_floor)
     A(r"^(core|std)::num::<impl i\w+>::unsigned_abs$", m_int_unary("unsigned_abs"))
-    A(r"^(core|std)::num::<impl u\w+>::ilog2$", m_int_unary("ilog2"))
+    A(r"^(core|std)::num::<impl [iu]\w+>::ilog2$", m_int_unary("ilog2"))
     A(r"^(core|std)::num::<impl u\w+>::checked_ilog2$", m_int_unary("checked_ilog2"))
     A(r"^(core|std)::num::<impl u\w+>::overflowing_add$", m_overflowing("Add"))
     A(r"^(core|std)::num::<impl u\w+>::overflowing_sub$", m_overflowing("Sub"))
